@@ -50,6 +50,7 @@ def fp_raise_first(n, exc):
 
 class C02(object):
     id = 'C02'
+    anchors = ('EquationSolver.SolveEquation', 'EquationSolver._SolveStep', 'EquationParser.EquationReduction')
     title = 'Whatever the solver returns satisfies the submitted equations'
     rule = ('one case = one equation system solved by the real EquationSolver.SolveEquation() under a drawn '
             'configuration (reduction on/off, step trace on/off, tolerance 1e-12..1e-1 via the parameter or the '
@@ -63,12 +64,17 @@ class C02(object):
                    'non-linear systems only with tol <= 1e-2 (first-order bound)',
                    'derived-only exactness is demanded only with reduction on and only for variables that a '
                    'conservative independent graph analysis of the submitted text proves unreferenced']
-    required_counters = ('equations_judged', 'exact_judged', 'lag_judged', 'hostile.loud', 'failpoint.recovered')
+    required_counters = ('equations_judged', 'exact_judged', 'lag_judged', 'hostile.loud', 'failpoint.recovered',
+                         'model_level.judged')
 
     def n_cases(self, tier):
         return 400 if tier == 'quick' else 40000
 
     def make_case(self, rng, idx, tier):
+        if idx % 40 == 39:
+            from vf.gen import modelspec as M
+            return {'kind': 'model', 'spec': M.gen_spec(rng, n_zones=rng.choice([1, 2]), maxtime=rng.randint(2, 4)),
+                    'reduction': True}
         r = rng.random()
         if r < 0.08:
             h = rng.randrange(len(HOSTILE))
@@ -94,9 +100,32 @@ class C02(object):
                 'cap': rng.choice([5000, 5000, 5000, 400, 60, 10, 1])}
 
     # ------------------------------------------------------------------------------------------
+    def run_model(self, case):
+        """A generated model solved by the real Model.main(): the emitted text is the submitted system."""
+        from vf.gen import modelspec as M
+        b = M.build(case['spec'])
+        shape = 'model|' + M.shape_of(case['spec'])
+        if b.error is not None:
+            return {'verdict': 'notjudged', 'shape': shape + '|' + type(b.error).__name__}
+        text = b.model.FinalEquations
+        blk = B.split_block(text)
+        tol = float(blk['tol']) if blk['tol'] is not None else 1e-8
+        exact = B.derived_only(blk)
+        viol, stats = B.check_solution(blk, dict(b.V), tol, exact_names=exact)
+        for v in viol:
+            v['mechanism'] = v['kind']
+        counters = {k_: stats[k_] for k_ in ('equations_judged', 'exact_judged', 'lag_judged', 'finite_judged')}
+        counters['model_level.judged'] = 1
+        return {'verdict': 'violated' if viol else 'held', 'nontrivial': stats['equations_judged'] > 0, 'shape': shape,
+                'counters': counters, 'violations': viol[:5],
+                'obs': {'n_equations': len(blk['endo']), 'tol': tol, 'worst_ratio': stats['worst_ratio']},
+                'worst': {'residual_over_bound': stats['worst_ratio']}}
+
     def run_case(self, case):
         from sfc_models.equation_solver import EquationSolver, ConvergenceError
         kind = case['kind']
+        if kind == 'model':
+            return self.run_model(case)
         counters = {}
         funcs = {}
         if kind == 'system':
